@@ -5495,6 +5495,9 @@ class CodegenCtx:
         elif isinstance(intexpr, StringRefIntegerExpr):
             index = self._generate_code_for_int_expr(intexpr.index, ctx)
             text = self._generate_buflike_index_expr(intexpr.ref, index)
+            if intexpr.ref.holds_a(OutputStorageType.STR) and not ProgramData.do(ProgramFlag.STRINGS_AS_U8):
+                # read the byte value, not a (possibly negative) plain char, so both string representations agree
+                text = f"((uint8_t){text})"
             size_str = self._generate_buflike_length_expr(intexpr.ref)
             if ProgramData.do(ProgramFlag.UNSAFE_STRING_INDEXING):
                 return text
